@@ -382,7 +382,12 @@ XMLUTF8Transcoder::transcodeFrom(const  XMLByte* const          srcData
             //  the real problem area.
             //
             if ((outPtr - toFill) > 32)
+            {
+                // leave the sequence in the source, or it would be
+                // swallowed without any error at all
+                srcPtr -= (trailingBytes + 1);
                 break;
+            }
 
             ThrowXMLwithMemMgr(TranscodingException, XMLExcepts::Trans_BadSrcSeq, getMemoryManager());
         }
